@@ -48,4 +48,14 @@ CHECKS = {
   'note': TB + " Oracle parameter: float_in_range (strconv.ParseFloat's range verdict) is a function parameter of the model, not an axiom.",
   'technique': 'Coq proof (acceptor model = limited RFC 8259 grammar on all inputs) + correspondence + exhaustive small-scope differential search',
  },
+ 'C20': {
+  'text': ("Proof (Coq): for EVERY rune string the model of PathBuilder (offset arithmetic as written, every buf[k] a checked read) neither indexes "
+           "out of range nor exhausts its fuel, i.e. CreatePath cannot panic; accepted paths start with the root selector. Tied by ~4*10^4 model-vs-"
+           "implementation cases per run (all strings <=5 over 13 path symbols: verdict, PathString, quote flags). Extract is compared with a reference "
+           "evaluator on every accepted path x 11 documents; reuse after failing calls, histories against a fresh Path per call, Path.Unmarshal and 4 "
+           "goroutines sharing one Path are checked differentially. Partial: evaluation (DecodePath) is not modelled in Coq; its three recorded "
+           "deviations from reference semantics are open findings."),
+  'note': TB,
+  'technique': 'Coq proof of parser totality + correspondence + differential evaluation/history/concurrency search',
+ },
 }
